@@ -1,6 +1,6 @@
 """C19 - no data races in the default configuration."""
 import json, os, re, sys, time
-import vlib, storelib
+import vlib, storelib, rbcheck
 
 
 def run(tier, work):
@@ -11,11 +11,18 @@ def run(tier, work):
         if path.endswith(".txt"):
             print("VIOLATION property=C19 replay=%s\n  detail: race detector report (see file)" % path)
             return 1
-        res = storelib.validate(work, path, "replay", module="LockTable", cfg="LockTable.cfg")
+        if vlib.read_ndjson_head(path, 1)[0].get("mode") == "rbmutex":
+            ns = vlib.read_ndjson_head(path, 1)[0]["ns"]
+            res = storelib.validate(work, path, "replay", module="RBMutexTrace", cfg="RBMutexTrace_gen.cfg",
+                                    extra_files={"RBMutexTrace_gen.cfg": rbcheck.CFG % ns})
+        else:
+            res = storelib.validate(work, path, "replay", module="LockTable", cfg="LockTable.cfg")
         for x in res["viol"]:
             print("VIOLATION property=C19 replay=%s\n  detail: %s at line %s" % (path, x[3], x[2]))
         return 1 if res["viol"] else 0
     v = vlib.Verdict("C19", work)
+    # (a) the shard lock itself: RBMutex.tla model-checked; the real lock stepped through its atomic operations
+    rb = rbcheck.run(work, v, "C19", thorough)
     # (b) lock probes validated against the lock-domain table
     out = storelib.run_driver(work, "TestVerif_C19Locks", "locks", env={"VERIF_N": 30 if thorough else 6})
     tf = os.path.join(out, "locks.ndjson")
@@ -41,9 +48,14 @@ def run(tier, work):
            "rule": "lock probes: at every linearization hook the lock required by LockTable.tla is probed (TryLock / reader slots) while 4 clients, maintenance and ticker run; race runs: 8 goroutines over Get/Set/SetWithTTL/Delete/Range/Len/EstimatedSize/Stats/Wait/SaveCache/loader Get/hybrid ops with a removal listener, Close racing in every second round, under the Go race detector with hooks inert",
            "lock_probes_validated": res["probes"], "traces_validated_against_impl": res["traces"], "race_detector_reports": races,
            "samples": vlib.read_ndjson_head(tf, 6), "exhaustive": False}
+    cov["states"] = rb.pop("_states", 0)
+    cov["transitions"] = rb.pop("_trans", 0)
+    cov["traces_validated_against_impl"] += rb.pop("_traces", 0)
+    cov.update(rb)
     rc2 = v.finish()
     vlib.write_evidence("C19", tier, "other", cov,
-                        ["a specification observes actions, not loads and stores: the lock-domain table is bound at hook points by lock probes (lockset style); accesses away from hook points are seen only by the race detector run, which is a different technique (dynamic happens-before analysis) and is reported as a supplementary oracle",
+                        ["the shard lock: RBMutex.tla at the grain of its atomic operations, exhaustive for 2 readers, 1 writer (2 thorough), 2 slots, with RLock/TryRLock/Lock/TryLock; the real RBMutex (1, 2, 4 slots; up to 3 readers and 2 writers) is released one hook at a time by a seeded scheduler and every step is compared with the specification; writer preference of sync.RWMutex is not modelled",
+                         "a specification observes actions, not loads and stores: the lock-domain table is bound at hook points by lock probes (lockset style); accesses away from hook points are seen only by the race detector run, which is a different technique (dynamic happens-before analysis) and is reported as a supplementary oracle",
                          "the race detector only reports races on executions that occur during the run"],
                         time.time() - t0, len(v.violations))
     return rc2
